@@ -25,12 +25,12 @@ PINS = {
     "_sanitize_equation": "4d6cc1af94d7",
     "_parse_einsum_single": "938fceb352f6",
     "_parse_eq_to_pure_multiplication": "c3ff0297d974",
-    "_parse_eq_to_batch_matmul": "41aa72e4a58e",
+    "_parse_eq_to_batch_matmul": "bf8bfd4d2384",
     "_einsum_single": "d5a81879f3b3",
     "_do_contraction_via_bmm": "a2cce8422355",
     "einsum": "998885176343",
-    "_parse_tensordot_axes_to_matmul": "196002c58cb3",
-    "tensordot": "0df451f461d9",
+    "_parse_tensordot_axes_to_matmul": "a58fd00037a1",
+    "tensordot": "052256c37bc8",
 }
 
 
@@ -226,6 +226,27 @@ def struct_eq2(rng):
     return "".join(ta[:4]), "".join(tb[:4]), "".join(c for c in out if c in ta[:4] or c in tb[:4])
 
 
+def style_eq(rng, ta, tb, out):
+    """the same equation written explicitly, with an implicit output, and / or with blanks.
+    returns (equation string, effective output, style)"""
+    r = rng.random()
+    implicit = r < 0.10 or 0.20 <= r < 0.24
+    blanks = 0.10 <= r < 0.24
+    if implicit:
+        both = ta + tb
+        out = "".join(c for c in sorted(set(both)) if both.count(c) == 1)
+        toks = list(ta) + [","] + list(tb)
+    else:
+        toks = list(ta) + [","] + list(tb) + ["->"] + list(out)
+    if blanks:
+        toks = [(" " * rng.randint(0, 2) if (t in (",", "->") or rng.random() < 0.2) else "") + t for t in toks]
+        toks.append(" " * rng.randint(0, 2))
+        if not any(" " in t for t in toks):
+            toks.insert(0, " ")
+    style = ("implicit" if implicit else "explicit") + ("+blanks" if blanks else "")
+    return "".join(toks), out, style
+
+
 def rand_sizes(rng, labels, p1=0.3):
     return {c: (1 if rng.random() < p1 else rng.randint(2, 3)) for c in labels}
 
@@ -315,7 +336,7 @@ def run(ctx):
     # oracle helpers (implementation vs numpy, both _einsum_single modes)
     def judge_einsum(eq, arrays, rec, known=None):
         """cotengra.contract.einsum must equal numpy.einsum whenever numpy accepts."""
-        ref = outcome(np.einsum, eq, *arrays)
+        ref = outcome(np.einsum, eq.replace(" ", ""), *arrays)   # numpy ignores blanks
         if ref[0] != "ok":
             return True   # the reference rejects: nothing is demanded
         ok = True
@@ -358,7 +379,7 @@ def run(ctx):
                 corpus.extend(json.load(open(os.path.join(cdir, fn)))["cases"])
     plan2_cases, exec2_cases, recs2p, recs2e, ref_cases = [], [], [], [], []
 
-    def add_two(eq, sa, sb, label, do_exec=True, consistent=True):
+    def add_two(eq, sa, sb, label, do_exec=True, consistent=True, terms=None):
         """register one two-operand case: plan correspondence (+ executor + oracle)"""
         sa, sb = tuple(sa), tuple(sb)
         rec = {"eq": eq, "shape_a": sa, "shape_b": sb}
@@ -387,13 +408,17 @@ def run(ctx):
         a, b = rand_array(rng, sa), rand_array(rng, sb)
         okk = judge_einsum(eq, [a, b], rec)
         if do_exec and okk:
-            ref = np.einsum(eq, a, b)
+            ref = np.einsum(eq.replace(" ", ""), a, b)
             exec2_cases.append((label, "einsum2 %s %s %s" % (coq(enc(eq)), tensor_lit(a), tensor_lit(b)),
                                 "(Some %s)" % tensor_lit(ref)))
             recs2e.append(dict(rec, arrays=[enc_tensor(a)[1], enc_tensor(b)[1]]))
-            ta_, tb_ = eq.split("->")[0].split(",")
+            if terms is None:
+                ta_, tb_ = eq.split("->")[0].split(",")
+                out_ = eq.split("->")[1]
+            else:
+                ta_, tb_, out_ = terms
             ref_cases.append((label, "einsum_ref [%s; %s] %s [%s; %s]" % (
-                coq(enc(ta_)), coq(enc(tb_)), coq(enc(eq.split("->")[1])), tensor_lit(a), tensor_lit(b)), tensor_lit(ref)))
+                coq(enc(ta_)), coq(enc(tb_)), coq(enc(out_)), tensor_lit(a), tensor_lit(b)), tensor_lit(ref)))
 
     for c in corpus:
         if c.get("kind", "einsum2") == "einsum2":
@@ -422,6 +447,14 @@ def run(ctx):
             if not same(got, ("ok", ref.shape, ref.reshape(-1).tolist())):
                 judge_einsum(eq, [a, b], rec)
             n_or += 1
+            if out == "":
+                for eqi in ("%s,%s" % (ta, tb), " %s , %s " % (ta, tb)):
+                    refi = np.einsum(eqi.replace(" ", ""), a, b)
+                    goti = outcome(einsum, eqi, a, b)
+                    if not same(goti, ("ok", refi.shape, refi.reshape(-1).tolist())):
+                        judge_einsum(eqi, [a, b], {"eq": eqi, "shape_a": sa, "shape_b": sb})
+                    n_or += 1
+                    ctx.count("oracle:einsum2_implicit_output")
             fs = features2(ta, tb, out, sa, sb)
             ctx.case(("e2", eq, sa, sb), nontrivial=bool(fs - {"scalar_operand"}))
     ctx.count("oracle:einsum2_exhaustive", n_or)
@@ -463,12 +496,13 @@ def run(ctx):
         labels = sorted(set(ta + tb))
         d = rand_sizes(rng, labels, p1=0.12 if i % 2 else 0.3)
         sa, sb = [d[c] for c in ta], [d[c] for c in tb]
-        eq = "%s,%s->%s" % (ta, tb, out)
+        eq, out, style = style_eq(rng, ta, tb, out)
         fs = features2(ta, tb, out, sa, sb)
         for f in fs:
             ctx.count(f)
+        ctx.count("eq2:" + style)
         nel = int(np.prod(sa or [1])) * int(np.prod(sb or [1]))
-        add_two(eq, sa, sb, "rand%d" % i, do_exec=(i % 3 != 2 and nel <= 1500))
+        add_two(eq, sa, sb, "rand%d" % i, do_exec=(i % 3 != 2 and nel <= 1500), terms=(ta, tb, out))
         ctx.case(("e2", eq, tuple(sa), tuple(sb)), nontrivial=bool(fs - {"scalar_operand"}),
                  sample={"eq": eq, "shape_a": sa, "shape_b": sb, "features": sorted(fs)} if i < 3 else None)
     # (c) parser-only cases with shapes that are NOT consistent (mismatched sizes, 1-vs-n, wrong rank,
@@ -606,25 +640,26 @@ def run(ctx):
         ref = outcome(np.tensordot, a, b, axes)
         if ref[0] != "ok":
             return
+        ok = judge_tensordot(a, b, axes, rec)
         if isinstance(axes, int):
-            ok = judge_tensordot(a, b, axes, rec, known=lambda got: "tensordot_int_axes"
-                                 if got[0] == "raises" and got[1] == "TypeError" else None)
-            # the wrapper aside, the plan and the executor of the real code must still be right
+            # besides the wrapper, the plan and the executor of the real code must be right
             if plan is not None:
                 got = outcome(_do_contraction_via_bmm, a, b, *plan, None)
                 if not same(got, ref):
                     ctx.fail("_parse_tensordot_axes_to_matmul(%r) + _do_contraction_via_bmm differ from numpy.tensordot" % (axes,),
                              dict(rec, got=got, numpy=ref, arrays=[enc_tensor(a)[1], enc_tensor(b)[1]]))
-        else:
-            ok = judge_tensordot(a, b, axes, rec)
-        if do_exec and plan is not None:
+        if do_exec and plan is not None and ok:
             tde_cases.append((label, "tensordot %s %s %s" % (spec_lit(axes), tensor_lit(a), tensor_lit(b)),
                               "(Some %s)" % tensor_lit(np.tensordot(a, b, axes))))
             if not isinstance(axes, int):
-                ref_cases.append((label, "tensordot_ref %s %s %s %s" % (coq(list(axes[0])), coq(list(axes[1])),
+                na = [v % len(sa) if len(sa) else v for v in axes[0]]
+                nb = [v % len(sb) if len(sb) else v for v in axes[1]]
+                ref_cases.append((label, "tensordot_ref %s %s %s %s" % (coq(na), coq(nb),
                                                                        tensor_lit(a), tensor_lit(b)),
                                   tensor_lit(np.tensordot(a, b, axes))))
         ctx.count("tdot:int" if isinstance(axes, int) else "tdot:pair")
+        if not isinstance(axes, int) and any(v < 0 for v in axes[0] + axes[1]):
+            ctx.count("tdot:negative_axes")
 
     specs = []
     for ra in range(0, 4):
@@ -648,12 +683,18 @@ def run(ctx):
                 sb[xb] = sa[xa]
         if rng.random() < 0.08 and sb:
             sb[rng.randrange(rb)] = 4          # probably a mismatch: both must raise
+        if not isinstance(axes, int) and axes[0] and rng.random() < 0.45:
+            # negative axes count from the end (numpy accepts them; normalised since /repo eebb3ef)
+            axes = ([x - ra if rng.random() < 0.5 else x for x in axes[0]],
+                    [x - rb if rng.random() < 0.6 else x for x in axes[1]])
         add_tdot(sa, sb, axes, "tdot%d" % i)
         ctx.case(("td", tuple(sa), tuple(sb), str(axes)), nontrivial=ra + rb >= 2,
                  sample={"axes": axes, "shape_a": sa, "shape_b": sb} if i < 2 else None)
     # some malformed specifications: unequal lengths, out-of-range, duplicate axes (parser correspondence)
     for axes, sa, sb in [(([0], [0, 1]), (2, 2), (2, 2)), (([2], [0]), (2, 2), (2, 2)), (([0, 0], [0, 1]), (2, 2), (2, 2)),
-                         (([0, 1], [0, 0]), (2, 2), (2, 2)), (3, (2, 2), (2, 2)), (([0], [2]), (2, 2), (2, 2))]:
+                         (([0, 1], [0, 0]), (2, 2), (2, 2)), (3, (2, 2), (2, 2)), (([0], [2]), (2, 2), (2, 2)),
+                         (([-3], [0]), (2, 2), (2, 2)), (([0], [-3]), (2, 2), (2, 2)), (([-1, 1], [0, 1]), (2, 2), (2, 2)),
+                         (([0, 1], [-1, 1]), (2, 2), (2, 2)), (1, (), (2,)), (2, (2,), (2, 2))]:
         sa, sb = tuple(sa), tuple(sb)
         hax = axes if isinstance(axes, int) else (tuple(axes[0]), tuple(axes[1]))
         try:
@@ -665,44 +706,34 @@ def run(ctx):
         recst.append({"axes": axes, "shape_a": sa, "shape_b": sb})
 
     # =======================================================================
-    # 4. known findings: probed actively every run
+    # 4. regressions of the three defects fixed in /repo f268afe, eebb3ef, 23dce6e (they were known findings):
+    #    fixed probes + the repros kept in corpus/C11/known_findings.json, judged as ordinary cases
     a23, b34 = rand_array(rng, (2, 3)), rand_array(rng, (3, 4))
-    # (i) integer axes (including the default axes=2) raise TypeError in the wrapper
-    judge_tensordot(a23, b34, 1, {"probe": "tensordot_int_axes"},
-                    known=lambda got: "tensordot_int_axes" if got[0] == "raises" and got[1] == "TypeError" else None)
-    # (ii) a negative axis for b is silently treated as "not contracted"
-    for axes in (([1], [-2]), ([-1], [-2]), ([-1], [0])):
-        judge_tensordot(a23, b34, axes, {"probe": "tensordot_negative_axes_b"},
-                        known=lambda got: "tensordot_negative_axes_b" if min(axes[1]) < 0 else None)
-    # the model reproduces it (theorem C11_tensordot_negative_axes_refuted): replay its witness on the code
-    wa, wb = np.array([1, 2]), np.array([3, 4])
-    w_impl = outcome(tensordot, wa, wb, ([0], [-1]))
-    w_model = ctx.coq_eval(IMPORTS, ["tensordot (AxPair [0%Z] [(-1)%Z]) ([2],[1%Z;2%Z]) ([2],[3%Z;4%Z])"])[0]
-    ctx.meta["negative_axes_witness"] = {"impl": w_impl, "model": w_model}
-    if w_impl[0] == "ok" and w_impl[1] == ():
-        ctx.notes.append("the witness of C11_tensordot_negative_axes_refuted no longer reproduces on the code: "
-                         "the model of _parse_tensordot_axes_to_matmul is stale for negative axes")
-    # (iii) two-operand equations are not sanitised: implicit output / blanks raise ValueError
-    for eq in ("ab,bc", "ab, bc -> ac", "ab,bc->ac "):
-        judge_einsum(eq, [a23, b34], {"probe": "einsum2_unsanitized_equation"},
-                     known=lambda got: "einsum2_unsanitized_equation" if got[0] == "raises" and got[1] == "ValueError" else None)
-
-    # the same three findings from the corpus (kept as regression cases once they are fixed)
+    for axes in (1, 0, ([1], [-2]), ([-1], [-2]), ([-1], [0])):
+        judge_tensordot(a23, b34, axes, {"probe": "tensordot axes=%r" % (axes,)})
+    judge_tensordot(a23, a23, 2, {"probe": "tensordot default axes"})
+    dflt = outcome(tensordot, a23, a23)
+    if not same(dflt, outcome(np.tensordot, a23, a23)):
+        ctx.fail("cotengra.contract.tensordot(a, b) with the default axes=2: %r" % (dflt[:2],),
+                 {"probe": "tensordot default axes", "got": dflt, "arrays": [enc_tensor(a23)[1], enc_tensor(a23)[1]]})
+    for eq in ("ab,bc", "ab, bc -> ac", "ab,bc->ac ", " ab , bc "):
+        judge_einsum(eq, [a23, b34], {"probe": "two-operand equation %r" % eq})
     for c in corpus:
-        kind, key = c.get("kind"), c.get("known")
+        kind = c.get("kind")
         if kind == "tensordot":
             x, y = rand_array(rng, c["shapes"][0]), rand_array(rng, c["shapes"][1])
             axes = c["axes"] if isinstance(c["axes"], int) else (list(c["axes"][0]), list(c["axes"][1]))
-            if key == "tensordot_int_axes":
-                kf = lambda got, key=key: key if got[0] == "raises" and got[1] == "TypeError" else None
-            else:
-                kf = lambda got, key=key, axes=axes: key if (not isinstance(axes, int) and axes[1] and min(axes[1]) < 0) else None
-            judge_tensordot(x, y, axes, {"corpus": c}, known=kf)
+            judge_tensordot(x, y, axes, {"corpus": c})
+            add_tdot(c["shapes"][0], c["shapes"][1], axes, "corpus:tensordot %r" % (axes,))
             ctx.count("corpus")
         elif kind == "einsum2_raw":
             x, y = rand_array(rng, c["shapes"][0]), rand_array(rng, c["shapes"][1])
-            judge_einsum(c["eq"], [x, y], {"corpus": c},
-                         known=lambda got, key=key: key if got[0] == "raises" and got[1] == "ValueError" else None)
+            judge_einsum(c["eq"], [x, y], {"corpus": c})
+            lhs_ = c["eq"].replace(" ", "").split("->")[0]
+            ta_, tb_ = lhs_.split(",")
+            out_ = (c["eq"].replace(" ", "").split("->")[1] if "->" in c["eq"]
+                    else "".join(ch for ch in sorted(set(ta_ + tb_)) if (ta_ + tb_).count(ch) == 1))
+            add_two(c["eq"], c["shapes"][0], c["shapes"][1], "corpus:" + c["eq"], terms=(ta_, tb_, out_))
             ctx.count("corpus")
 
     # =======================================================================
